@@ -1,0 +1,31 @@
+//go:build verif
+
+// Contracts for package regex (comment-only; read by /verif/govc).
+
+package regex
+
+// A usable Regex has at least one flag, and a compiled expression unless the
+// first flag makes Match ignore it. Regex values travel by value, so this is
+// stated as pre/postconditions rather than as a type invariant (the zero
+// Regex{} returned next to an error is never matched against).
+
+//@ func NewNoop
+//@   ensures [usable] len(result.flags) == 1 && result.flags[0] == Noop && result.initialized
+
+//@ func New
+//@   ensures [usable] implies(isnil(result1), len(result0.flags) >= 1 && implies(result0.flags[0] == Default || result0.flags[0] == Invert, result0.re != nil))
+
+//@ func new
+//@   ensures [usable] implies(isnil(result1), len(result0.flags) >= 1 && result0.re != nil && result0.initialized && result0.regexStr == regexStr)
+//@   ensures [flags-kept] implies(isnil(result1) && len(flags) >= 1, len(result0.flags) == len(flags) && result0.flags[0] == flags[0])
+//@   ensures [flags-default] implies(isnil(result1) && len(flags) == 0, len(result0.flags) == 1 && result0.flags[0] == Default)
+
+//@ func Deserialize
+//@   ensures [usable] implies(isnil(result1), len(result0.flags) >= 1 && implies(result0.flags[0] == Default || result0.flags[0] == Invert, result0.re != nil))
+
+//@ func (Regex).Match
+//@   requires [usable] len(r.flags) >= 1 && implies(r.flags[0] == Default || r.flags[0] == Invert, r.re != nil)
+//@   assigns nothing
+//@ func (Regex).MatchString
+//@   requires [usable] len(r.flags) >= 1 && implies(r.flags[0] == Default || r.flags[0] == Invert, r.re != nil)
+//@   assigns nothing
